@@ -4,7 +4,7 @@ rc_bin("c02_sched", ["harness/c02_flush_shutdown.cc"], lib=False, shadow=BATCH_S
 rc_bin("c02_provider", ["harness/c02_provider.cc"], lib=True)
 PROPS["C02"] = dict(
     level_text="Same schedule-controlled engine as C01, biased to control operations (concurrent ForceFlush callers incl. producers that flush right after producing, Shutdown racing flushes, repeated/cross-thread Shutdown, destruction-only shutdown, operations after shutdown, zero/finite/max timeouts, exporters whose Export/ForceFlush/Shutdown are slow or report failure). Oracles over logical stamps: a ForceFlush that returned true implies every record produced before its call was exported (Export returned) before it returned and the exporter's ForceFlush ran inside the window; exporter Shutdown exactly once; no exporter call after the first Shutdown returned; post-shutdown calls are prompt and effect-free; termination = no scheduler-detected deadlock and no step-budget overrun.",
-    technique="generated schedules over a deterministic scheduler shim (rapidcheck choice streams) + history-invariant oracle",
+    technique="generated schedules (weighted/uniform/PCT) over a deterministic scheduler shim (rapidcheck choice streams) + history-invariant oracle + provider-level model-based programs + periodic-reader scenarios",
     rule="A case = (processor configuration, thread programs, exporter behaviour, schedule).",
     assumptions=SCHED_ASSUMPTIONS + [SC_NOTE],
     runs=[
